@@ -59,6 +59,20 @@ static std::string run_case(const std::vector<std::string>& w)
         if (cl != l) return "S-ARGUMENT-MODIFIED";
         return "S " + hex(a);
     }
+    if (w.size() == 3 && w[0] == "joinc")
+    {
+        // ranges of character types: each element is rendered as the character, not as a number
+        std::string text = unhex(w[2]);
+        auto a = nitro::lang::join(text.begin(), text.end(), unhex(w[1]));
+        std::vector<unsigned char> uc(text.begin(), text.end());
+        auto b = nitro::lang::join(uc.begin(), uc.end(), unhex(w[1]));
+        std::vector<signed char> sc(text.begin(), text.end());
+        auto c = nitro::lang::join(sc.begin(), sc.end(), unhex(w[1]));
+        const char* raw = text.data();
+        auto d = nitro::lang::join(raw, raw + text.size(), unhex(w[1]));
+        if (a != b || a != c || a != d) return "S-CHAR-TYPES-DIFFER " + hex(a) + " " + hex(b) + " " + hex(c) + " " + hex(d);
+        return "S " + hex(a);
+    }
     if (w.size() == 3 && w[0] == "joinw")
     {
         // single-pass iterators: the elements can be read once only
